@@ -145,6 +145,58 @@ class Native(object):
         return True
 
 
+class Stub(Native):
+    """A scripted collaborator: `methods` maps a method name to fn(interp, args, kwargs, node, frame) -> value; `attrs` holds plain
+    attribute values.  Rules use it instead of matching call *text* (`decoder.process`), so that the names of the variables that
+    hold the collaborator do not matter."""
+
+    def __init__(self, label, methods=None, attrs=None, strict=False):
+        self.label, self.methods, self.attrs, self.strict = label, dict(methods or {}), dict(attrs or {}), strict
+
+    def __repr__(self):
+        return 'Stub(%s)' % self.label
+
+    def get_attr(self, name, interp, frame):
+        if name in self.attrs:
+            return self.attrs[name]
+        if name in self.methods:
+            return NativeMethod(self, name)
+        if self.strict:
+            raise Raise('AttributeError', None, 'stub %s has no attribute %s' % (self.label, name))
+        return Top('attr:' + name)
+
+    def call_method(self, name, args, kwargs, interp, frame, node):
+        if name in ('__enter__',):
+            return self
+        if name in ('__exit__', 'close', 'flush'):
+            return None
+        if name in self.methods:
+            return self.methods[name](interp, list(args), dict(kwargs), node, frame)
+        if self.strict:
+            raise Raise('AttributeError', node, interp.where(node, frame))
+        interp.event('stub-call', self.label, name)
+        return Top('call:' + name)
+
+
+class Counter(Native):
+    """itertools.count(start, step): answers next() and drives a `for` loop until the body leaves it (bounded)."""
+
+    def __init__(self, start=0, step=1):
+        self.v, self.step = start, step
+
+    def __repr__(self):
+        return 'count(%r)' % (self.v,)
+
+    def next_value(self, interp, frame, node):
+        v = self.v
+        self.v += self.step
+        return v
+
+
+class GenList(list):
+    """The items of a generator expression, evaluated eagerly (an iterator: next() consumes)."""
+
+
 class Deque(Native):
     """collections.deque over concrete items."""
 
@@ -277,7 +329,12 @@ BUILTIN_EXC = {'Exception': None, 'ValueError': 'Exception', 'IndexError': 'Look
                'NotImplementedError': 'RuntimeError', 'RuntimeError': 'Exception', 'TypeError': 'Exception',
                'AttributeError': 'Exception', 'IOError': 'Exception', 'OSError': 'Exception',
                'SyntaxError': 'Exception', 'BaseException': None, 'ZeroDivisionError': 'ArithmeticError',
-               'ArithmeticError': 'Exception'}
+               'ArithmeticError': 'Exception', 'UnicodeError': 'ValueError', 'UnicodeDecodeError': 'UnicodeError',
+               'UnicodeEncodeError': 'UnicodeError', 'OverflowError': 'ArithmeticError', 'NameError': 'Exception',
+               'ImportError': 'Exception', 'EOFError': 'Exception', 'UnboundLocalError': 'NameError',
+               'FileNotFoundError': 'OSError', 'RecursionError': 'RuntimeError',
+               'bitstring.Error': 'Exception', 'bitstring.ReadError': 'bitstring.Error', 'bitstring.InterpretError': 'bitstring.Error',
+               'bitstring.CreationError': 'bitstring.Error', 'bitstring.ByteAlignError': 'bitstring.Error'}
 
 BENIGN_UNKNOWN_METHODS = {'format', 'strip', 'lstrip', 'rstrip', 'find', 'rfind', 'startswith', 'endswith', 'join',
                           'split', 'rsplit', 'splitlines', 'encode', 'decode', 'debug', 'info', 'warning', 'error',
@@ -338,7 +395,7 @@ class Result(object):
 class Interp(object):
     """The evaluator.  Rules subclass it and override the `on_*` hooks."""
 
-    LIST_CAP = 6
+    LIST_CAP = 4096
     MAX_DEPTH = 14
     MAX_PATHS = 40000
     MAX_STEPS = 200000
@@ -378,6 +435,11 @@ class Interp(object):
     def on_for(self, node, itervalue, frame):
         """Return a list of loop-variable values to unroll over, or None for the
         default 'body once, bracketed by loop events' treatment."""
+        return None
+
+    def on_abstract_loop(self, node, itervalue, frame, token):
+        """hook around the single bracketed evaluation of a loop body over an abstract iterable (token None: before the body;
+        otherwise after it, with what the first call returned)"""
         return None
 
     def on_while(self, node, frame):
@@ -449,7 +511,12 @@ class Interp(object):
             t = self.choose_bool(norm(test))
             self.refine(test, t, frame)
             self.on_refine(test, t, frame)
+            self.on_decide(v, t, frame)
         return t
+
+    def on_decide(self, value, truth, frame):
+        """hook: an undetermined value was decided to be truthy / falsy on this path (value-based refinement)"""
+        return None
 
     def refine(self, test, truth, frame):
         """x == k / x != k / x is k on an undetermined local: bind k on the equal arm."""
@@ -487,7 +554,37 @@ class Interp(object):
         return e.value
 
     def ev_JoinedStr(self, e, frame):
-        return Top('str')
+        parts = []
+        abstract = False
+        for v in e.values:
+            if isinstance(v, ast.Constant):
+                parts.append(v.value)
+                continue
+            val = self.ev(v.value, frame)
+            spec = ''
+            if v.format_spec is not None:
+                spec = self.ev(v.format_spec, frame)
+            if isinstance(val, Obj) and self.repo.has_cls(val.cls) and v.conversion in (-1, 115) and not spec:
+                m = self.repo.method(val.cls, '__str__', required=False)
+                if m is not None and self.should_inline(m, frame):
+                    val = self.call_function(m, [val], {}, e, frame)
+            if abstract or not isinstance(spec, str) or not (val is None or isinstance(val, (bool, int, float, str, bytes))) and \
+                    not (isinstance(val, (list, tuple)) and not _has_abstract(val)):
+                abstract = True
+                continue
+            try:
+                if v.conversion == 114:
+                    val = repr(val)
+                elif v.conversion == 115:
+                    val = str(val)
+                elif v.conversion == 97:
+                    val = ascii(val)
+                parts.append(format(val, spec))
+            except Exception:
+                raise Raise('ValueError', e, self.where(e, frame))
+        if abstract:
+            return Top('str')
+        return ''.join(parts)
 
     def ev_Name(self, e, frame):
         n = e.id
@@ -730,6 +827,7 @@ class Interp(object):
                 t = self.choose_bool(norm(x))
                 self.refine(x, t, frame)
                 self.on_refine(x, t, frame)
+                self.on_decide(v, t, frame)
                 if t != is_and:
                     return v
                 last = v
@@ -890,31 +988,71 @@ class Interp(object):
         return self.comprehension(e, frame, list)
 
     def ev_GeneratorExp(self, e, frame):
-        return self.comprehension(e, frame, list)
+        r = self.comprehension(e, frame, list)
+        return GenList(r) if isinstance(r, list) else r
 
     def ev_DictComp(self, e, frame):
-        return Top('dict')
+        pairs = self.comprehension(e, frame, dict)
+        if not isinstance(pairs, list):
+            return Top('dict')
+        out = {}
+        for k, v in pairs:
+            if isinstance(k, (Top, Sym, Obj, list, dict)):
+                return Top('dict')
+            out[k] = v
+        return out
 
     def ev_SetComp(self, e, frame):
+        items = self.comprehension(e, frame, set)
+        if isinstance(items, list) and not _has_abstract(items):
+            try:
+                return tuple(sorted(set(items), key=repr))
+            except TypeError:
+                return Top('set')
         return Top('set')
 
-    def comprehension(self, e, frame, ctor):
-        if len(e.generators) != 1:
-            return Top('list')
-        g = e.generators[0]
-        it = self.ev(g.iter, frame)
-        if isinstance(it, str) and len(it) <= self.UNROLL_CAP:
-            it = list(it)
+    def concrete_iteration(self, node, it, frame):
+        """The items a loop / comprehension visits, when the iterable is concrete (the same hook as `for` statements)."""
+        vals = self.on_for(node, it, frame)
+        if vals is not None:
+            return list(vals)
+        if isinstance(it, Deque):
+            return list(it.items)
+        if isinstance(it, (str, bytes)) and len(it) <= self.UNROLL_CAP:
+            return list(it) if isinstance(it, str) else [x for x in it]
+        if isinstance(it, dict) and len(it) <= self.UNROLL_CAP:
+            return list(it.keys())
         if isinstance(it, (list, tuple)) and len(it) <= self.UNROLL_CAP:
-            out = []
-            saved = dict(frame.locals)
-            for x in it:
-                self.assign(g.target, x, frame, e)
-                if all(self.cond(c, frame) for c in g.ifs):
-                    out.append(self.ev(e.elt, frame))
+            return list(it)
+        return None
+
+    def comprehension(self, e, frame, ctor):
+        out = []
+        saved = dict(frame.locals)
+        try:
+            ok = self._comprehension(e, 0, frame, out, ctor)
+        finally:
             frame.locals = saved
-            return out
-        return Top('list')
+        return out if ok else Top('list')
+
+    def _comprehension(self, e, i, frame, out, ctor):
+        if i == len(e.generators):
+            if ctor is dict:
+                out.append((self.ev(e.key, frame), self.ev(e.value, frame)))
+            else:
+                out.append(self.ev(e.elt, frame))
+            return True
+        g = e.generators[i]
+        it = self.ev(g.iter, frame)
+        vals = self.concrete_iteration(g, it, frame)
+        if vals is None:
+            return False
+        for x in vals:
+            self.assign(g.target, x, frame, e)
+            if all(self.cond(c, frame) for c in g.ifs):
+                if not self._comprehension(e, i + 1, frame, out, ctor):
+                    return False
+        return True
 
     def ev_Starred(self, e, frame):
         return self.ev(e.value, frame)
@@ -1036,6 +1174,48 @@ class Interp(object):
             if isinstance(a, (list, tuple)):
                 return Deque(a)
             return Top('deque')
+        if qual == 'itertools.count':
+            st = args[0] if args else kwargs.get('start', 0)
+            step = args[1] if len(args) > 1 else kwargs.get('step', 1)
+            if isinstance(st, int) and isinstance(step, int):
+                return Counter(st, step)
+            return Top('call:' + qual)
+        if qual == 'itertools.chain' and all(isinstance(a, (list, tuple)) for a in args):
+            return [x for a in args for x in a]
+        if qual in ('itertools.takewhile', 'itertools.dropwhile') and len(args) == 2 and isinstance(args[1], (list, tuple)):
+            out, taking = [], True
+            for x in args[1]:
+                if taking:
+                    t = self.truth(self.apply(qual, args[0], [x], {}, node, frame))
+                    if t is None:
+                        t = self.choose_bool('%s:%s' % (qual, norm(node)))
+                    if not t:
+                        taking = False
+                        if qual.endswith('takewhile'):
+                            break
+                if taking == qual.endswith('takewhile'):
+                    out.append(x)
+            return GenList(out)
+        if qual == 'itertools.islice' and len(args) >= 2 and isinstance(args[0], (list, tuple)) and all(a is None or (isinstance(a, int) and not isinstance(a, bool)) for a in args[1:]):
+            import itertools as _it
+            return GenList(_it.islice(list(args[0]), *args[1:]))
+        if qual == 'itertools.repeat' and len(args) == 2 and isinstance(args[1], int) and 0 <= args[1] <= self.UNROLL_CAP:
+            return [args[0]] * args[1]
+        if qual in ('operator.add', 'operator.sub', 'operator.mul') and len(args) == 2:
+            return self.binop({'add': ast.Add, 'sub': ast.Sub, 'mul': ast.Mult}[qual.split('.')[1]], args[0], args[1], node, frame)
+        if qual in ('operator.iadd', 'operator.concat') and len(args) == 2:
+            return self.binop(ast.Add, args[0], args[1], node, frame)
+        if qual == 'functools.reduce' and len(args) >= 2 and isinstance(args[1], (list, tuple)):
+            items = list(args[1])
+            if len(args) > 2:
+                acc = args[2]
+            elif items:
+                acc = items.pop(0)
+            else:
+                raise Raise('TypeError', node, self.where(node, frame))
+            for x in items:
+                acc = self.apply('reduce-function', args[0], [acc, x], {}, node, frame)
+            return acc
         if qual.startswith('six.moves.') and qual[10:] in ('range', 'zip', 'map', 'filter'):
             return self.builtin(qual[10:], args, kwargs, node, frame)
         return Top('call:' + qual)
@@ -1056,7 +1236,8 @@ class Interp(object):
             if base.name == 'copy' and name == 'copy':
                 a = args[0]
                 return dict(a) if isinstance(a, dict) else (list(a) if isinstance(a, list) else a)
-            return Top('call:%s.%s' % (base.name, name))
+            r = self.imported_call('%s.%s' % (base.name, name), args, kwargs, node, frame)
+            return r
         if isinstance(base, list):
             if name == 'append':
                 if len(base) < self.LIST_CAP:
@@ -1083,6 +1264,23 @@ class Interp(object):
             if name == 'clear':
                 del base[:]
                 return None
+            if name == 'reverse' and not args:
+                base.reverse()
+                return None
+            if name == 'remove' and args and not _has_abstract(base) and not _has_abstract(args[0]):
+                try:
+                    base.remove(args[0])
+                except ValueError:
+                    raise Raise('ValueError', node, self.where(node, frame))
+                return None
+            if name == 'sort' and not args and set(kwargs) <= {'key', 'reverse'}:
+                r = self.builtin('sorted', [list(base)], kwargs, node, frame)
+                if isinstance(r, list) and len(r) == len(base):
+                    base[:] = r
+                    return None
+                raise Unsupported('list.sort on abstract items at %s' % self.where(node, frame))
+            if name in ('reverse', 'remove', 'sort', '__setitem__', '__delitem__', '__iadd__'):
+                raise Unsupported('list.%s on abstract operands at %s' % (name, self.where(node, frame)))
             if name == 'count':
                 if _has_abstract(base) or _has_abstract(args[0]):
                     return Top('int')
@@ -1131,15 +1329,14 @@ class Interp(object):
                 return getattr(base, name)(*args, **kwargs)
             except (UnicodeError, LookupError):
                 raise Raise('UnicodeError', node, self.where(node, frame))
-        if isinstance(base, (str, bytes)) and not _has_abstract(list(args)) and not kwargs:
-            if name in ('strip', 'lstrip', 'rstrip', 'startswith', 'endswith', 'find', 'rfind', 'upper', 'lower',
-                        'isdigit', 'count', 'split', 'rsplit', 'join', 'encode', 'decode', 'splitlines', 'index'):
-                try:
-                    return getattr(base, name)(*args)
-                except ValueError:
-                    raise Raise('ValueError', node, self.where(node, frame))
-                except Exception:
-                    return Top('str')
+        if isinstance(base, (str, bytes)) and not _has_abstract(list(args)) and not _has_abstract(kwargs) and name not in ('format', 'format_map') \
+                and hasattr(base, name) and not name.startswith('_'):
+            # strings are immutable: every method is a pure function of concrete operands
+            try:
+                r = getattr(base, name)(*args, **kwargs)
+            except Exception as exc:
+                raise Raise(type(exc).__name__ if type(exc).__name__ in BUILTIN_EXC else 'Exception', node, self.where(node, frame))
+            return list(r) if isinstance(r, (map, filter, zip)) else r
             if name == 'format':
                 try:
                     return base.format(*args)
@@ -1368,11 +1565,82 @@ class Interp(object):
         if name == 'next':
             if isinstance(a0, Native) and hasattr(a0, 'next_value'):
                 return a0.next_value(self, frame, node)
+            if isinstance(a0, GenList):
+                if a0:
+                    return a0.pop(0)
+                if len(args) > 1:
+                    return args[1]
+                raise Raise('StopIteration', node, self.where(node, frame))
+            if isinstance(a0, Obj) and a0.cls == 'iter' and isinstance(a0.fields.get('of'), (list, tuple, GenList)):
+                seq = a0.fields['of']
+                if isinstance(seq, GenList):
+                    if seq:
+                        return seq.pop(0)
+                else:
+                    k = a0.fields.get('pos', 0)
+                    if k < len(seq):
+                        a0.fields['pos'] = k + 1
+                        return seq[k]
+                if len(args) > 1:
+                    return args[1]
+                raise Raise('StopIteration', node, self.where(node, frame))
             return Top('next')
         if name == 'super':
             return Top('super')
         if name == 'print':
             return None
+        plain = lambda x: isinstance(x, (int, float)) and not isinstance(x, bool)
+        if name == 'divmod' and len(args) == 2:
+            if plain(a0) and plain(args[1]):
+                if args[1] == 0:
+                    raise Raise('ZeroDivisionError', node, self.where(node, frame))
+                return tuple(divmod(a0, args[1]))
+            if isinstance(a0, (Sym, Top)) or isinstance(args[1], (Sym, Top)):
+                return (self.binop(ast.FloorDiv, a0, args[1], node, frame), self.binop(ast.Mod, a0, args[1], node, frame))
+        if name == 'pow' and len(args) == 2 and plain(a0) and plain(args[1]):
+            try:
+                return pow(a0, args[1])
+            except Exception:
+                return Top('pow')
+        if name in ('bin', 'hex', 'oct') and len(args) == 1 and isinstance(a0, int) and not isinstance(a0, bool):
+            return {'bin': bin, 'hex': hex, 'oct': oct}[name](a0)
+        if name == 'chr' and isinstance(a0, int) and not isinstance(a0, bool) and 0 <= a0 < 0x110000:
+            return chr(a0)
+        if name == 'ord' and isinstance(a0, (str, bytes)) and len(a0) == 1:
+            return ord(a0)
+        if name in ('any', 'all') and len(args) == 1 and isinstance(a0, (list, tuple)):
+            want = name == 'any'
+            for x in a0:
+                t = self.truth(x)
+                if t is None:
+                    t = self.choose_bool('%s:%s' % (name, norm(node)))
+                    self.on_decide(x, t, frame)
+                if t == want:
+                    return want
+            return not want
+        if name in ('map', 'filter') and len(args) == 2 and isinstance(a0, FuncRef) and isinstance(args[1], (list, tuple)):
+            out = []
+            for x in args[1]:
+                r = self.apply(norm(node.func), a0, [x], {}, node, frame)
+                if name == 'map':
+                    out.append(r)
+                else:
+                    t = self.truth(r)
+                    if t is None:
+                        t = self.choose_bool('filter:' + norm(node))
+                    if t:
+                        out.append(x)
+            return out
+        if name == 'callable' and len(args) == 1:
+            if isinstance(a0, (FuncRef, ClassRef, NativeMethod)):
+                return True
+            if a0 is None or isinstance(a0, (bool, int, float, str, bytes, list, tuple, dict)):
+                return False
+        if name == 'bytes' and len(args) == 1 and isinstance(a0, (bytes, list, tuple)) and not _has_abstract(a0):
+            try:
+                return bytes(a0)
+            except Exception:
+                return Top('bytes')
         if name in ('bin', 'hex', 'chr', 'ord', 'any', 'all', 'open', 'compile', 'eval', 'exec', 'id', 'hash', 'format',
                     'divmod', 'pow', 'map', 'filter', 'callable', 'vars', 'dir', 'bytes', 'bytearray', 'object'):
             if isinstance(a0, Sym):
@@ -1444,7 +1712,14 @@ class Interp(object):
         if clo is not None:
             new.locals['__closure__'] = clo
         self.bind_params(fi, args, kwargs, new, node, frame)
-        ctrl = self.block(fi.node.body, new)
+        stack = getattr(self, 'frame_stack', None)
+        if stack is None:
+            stack = self.frame_stack = []
+        stack.append(new)
+        try:
+            ctrl = self.block(fi.node.body, new)
+        finally:
+            stack.pop()
         if ctrl is not None and ctrl.kind == 'return':
             return ctrl.value
         return None
@@ -1579,8 +1854,19 @@ class Interp(object):
         return None
 
     def st_Try(self, s, frame):
-        if s.finalbody:
-            raise Unsupported('try/finally at %s' % self.where(s, frame))
+        if not s.finalbody:
+            return self._try_except(s, frame)
+        try:
+            c = self._try_except(s, frame)
+        except Raise:
+            c2 = self.block(s.finalbody, frame)
+            if c2 is not None:
+                return c2           # return / break in finally swallows the exception
+            raise
+        c2 = self.block(s.finalbody, frame)
+        return c2 if c2 is not None else c
+
+    def _try_except(self, s, frame):
         try:
             c = self.block(s.body, frame)
         except Raise as r:
@@ -1599,17 +1885,51 @@ class Interp(object):
             return self.block(s.orelse, frame)
         return c
 
+    def handler_class_names(self, t, frame):
+        """Exception class names a handler type expression denotes (the expression is evaluated: a local or an attribute that holds
+        the class, e.g. `self.bitstring_Error`, counts as the class it holds)."""
+        if isinstance(t, ast.Tuple):
+            out = []
+            for x in t.elts:
+                out += self.handler_class_names(x, frame)
+            return out
+        if isinstance(t, ast.Name) and (t.id in BUILTIN_EXC or self.repo.has_cls(t.id)) and t.id not in frame.locals:
+            return [t.id]
+        try:
+            v = self.ev(t, frame)
+        except Raise:
+            v = None
+        return self._exc_names_of(v, t)
+
+    def _exc_names_of(self, v, t):
+        if isinstance(v, ClassRef):
+            return [v.name]
+        if isinstance(v, UnknownMethod) and isinstance(v.recv, ModRef):
+            return ['%s.%s' % (v.recv.name, v.name)]
+        if isinstance(v, Top) and ('.' in v.kind) and not v.kind.startswith(('call', 'attr', 'name:', 'import:')):
+            return [v.kind]
+        if isinstance(v, Top) and v.kind.startswith('import:'):
+            return [v.kind[7:]]
+        if isinstance(v, Top) and v.kind.startswith('name:'):
+            return [v.kind[5:]]
+        if isinstance(v, tuple) and v and v[0] == 'builtin':
+            return [v[1]]
+        if isinstance(v, (tuple, list)):
+            out = []
+            for x in v:
+                out += self._exc_names_of(x, t)
+            return out
+        # not resolvable: fall back to the spelled name
+        if isinstance(t, ast.Name):
+            return [t.id]
+        if isinstance(t, ast.Attribute):
+            return ['bitstring.Error' if t.attr == 'bitstring_Error' else t.attr]
+        return []
+
     def handler_matches(self, h, r, frame):
         if h.type is None:
             return True
-        names = []
-        ts = h.type.elts if isinstance(h.type, ast.Tuple) else [h.type]
-        for t in ts:
-            if isinstance(t, ast.Name):
-                names.append(t.id)
-            elif isinstance(t, ast.Attribute):
-                names.append(t.attr)
-        for n in names:
+        for n in self.handler_class_names(h.type, frame):
             if n == 'bitstring_Error':
                 n = 'bitstring.Error'
             if self.exc_is_subclass(r.cls, n):
@@ -1629,10 +1949,24 @@ class Interp(object):
     def st_For(self, s, frame):
         it = self.ev(s.iter, frame)
         vals = self.on_for(s, it, frame)
-        if vals is None and isinstance(it, Deque):
-            it = list(it.items)
-        if vals is None and isinstance(it, (list, tuple)) and len(it) <= self.UNROLL_CAP:
-            vals = list(it)
+        if vals is None and isinstance(it, Counter):
+            n = 0
+            while True:
+                n += 1
+                if n > 64:
+                    raise PathLimit('loop over itertools.count() at %s not left after 64 iterations' % self.where(s, frame))
+                self.assign(s.target, it.next_value(self, frame, s), frame, s)
+                c = self.block(s.body, frame)
+                if c is not None:
+                    if c.kind == 'break':
+                        return None
+                    if c.kind == 'continue':
+                        continue
+                    return c
+        if vals is None and isinstance(it, Obj) and it.cls == 'iter' and isinstance(it.fields.get('of'), (list, tuple)):
+            it = list(it.fields['of'])[it.fields.get('pos', 0):]
+        if vals is None and not isinstance(it, (str, bytes)):
+            vals = self.concrete_iteration(s, it, frame)
         if vals is not None:
             for v in vals:
                 self.assign(s.target, v, frame, s)
@@ -1648,8 +1982,10 @@ class Interp(object):
             return None
         # body once, bracketed
         self.event('loop_begin', norm(s.iter))
+        token = self.on_abstract_loop(s, it, frame, None)
         self.assign(s.target, self.loop_var(s, it, frame), frame, s)
         c = self.block(s.body, frame)
+        self.on_abstract_loop(s, it, frame, token)
         self.event('loop_end')
         if c is not None and c.kind in ('break', 'continue'):
             c = None
@@ -1747,6 +2083,7 @@ class Interp(object):
             frame = make_frame()
             path = Path(seq)
             self.path = path
+            self.frame_stack = [frame]
             try:
                 c = self.block(body, frame)
                 if c is None:
